@@ -351,6 +351,15 @@ pub fn run_case(case: &Case) -> (Vec<(String, String)>, Info) {
                     },
                     _ => None,
                 };
+                // "the remote side has produced" the signature: a node that authenticates a connection
+                // under its OWN key has been handed back a signature it made itself (reflection)
+                if proof.is_some() && k == honest_key[ni].0 {
+                    v.push((
+                        format!("C17|authenticated_by_reflection_of_own_signature|op={opname}"),
+                        format!("step {step} ({opname}): node {ni} marked connection {idx} as connected under its own key: the signature it accepted is one it produced itself"),
+                    ));
+                    continue;
+                }
                 match proof {
                     Some(c) => {
                         accepted.insert((ni, idx, c));
@@ -448,7 +457,7 @@ pub fn arb_op() -> impl Strategy<Value = Op> {
 }
 
 pub fn run(ctx: &mut Ctx) {
-    ctx.rule = "two honest nodes built from the real routing threads (A connects to B) and an attacker with three connections of its own (two to B, one to A) who also sits on the honest link; generated sequences of 4..14 operations: connect, deliver in order, drop, reorder, replay any observed message to any endpoint (incl. redirect across connections and reflection), attacker responses signed with its own key over the right / another connection's / a random challenge with ok / unset / incompatible version claiming its own or the honest peer's key, attacker challenges (random, or another endpoint's challenge: signing-oracle attempt), unsolicited traffic, dropped connections that are dialled again under the same connection index (plus a directed family: the honest link drops at every point of the handshake, is re-dialled, and every message seen so far is replayed to either end). monitor (from the honest nodes' outgoing messages the harness knows which challenge each node issued on which connection): every handshake completion (interface event or status change to Connected under key K) must coincide with the delivery, on that connection, of a response whose signature verifies for K over a challenge issued by this node on this connection that was not accepted before; a delivery that completes nothing leaves status, key and key->connection entry of every other authenticated connection unchanged. evaluations = operations. non-trivial = sequence with a completed handshake side and a delivery that completed nothing; distinct by case digest".into();
+    ctx.rule = "two honest nodes built from the real routing threads (A connects to B) and an attacker with three connections of its own (two to B, one to A) who also sits on the honest link; generated sequences of 4..14 operations: connect, deliver in order, drop, reorder, replay any observed message to any endpoint (incl. redirect across connections and reflection), attacker responses signed with its own key over the right / another connection's / a random challenge with ok / unset / incompatible version claiming its own or the honest peer's key, attacker challenges (random, or another endpoint's challenge: signing-oracle attempt), unsolicited traffic, dropped connections that are dialled again under the same connection index (plus two directed families: the honest link drops at every point of the handshake, is re-dialled, and every message seen so far is replayed to either end; the attacker reflects a node's own first messages back to it on the attacker's connection). monitor (from the honest nodes' outgoing messages the harness knows which challenge each node issued on which connection): every handshake completion (interface event or status change to Connected under key K) must coincide with the delivery, on that connection, of a response whose signature verifies for K over a challenge issued by this node on this connection that was not accepted before, and K must not be the node's own key (a reflected signature was not produced by the remote side); a delivery that completes nothing leaves status, key and key->connection entry of every other authenticated connection unchanged. evaluations = operations. non-trivial = sequence with a completed handshake side and a delivery that completed nothing; distinct by case digest".into();
     ctx.assumptions.push("The attacker cannot forge signatures. A live relay of the very challenge (K signs, in its own handshake, the challenge the victim issued to the attacker) satisfies the statement's letter and is counted, not flagged.".into());
     // directed prefix: the honest handshake, in order, must complete on both sides
     let honest = Case { ops: vec![Op::Connect(0), Op::Deliver(1), Op::Deliver(0), Op::Deliver(1)] };
@@ -460,6 +469,19 @@ pub fn run(ctx: &mut Ctx) {
     }
     if i0.honest_completed != 2 {
         ctx.violation("C17|honest_handshake_does_not_complete", format!("the undisturbed handshake completed on {} of 2 sides", i0.honest_completed), json!({"check": "honest_in_order", "case": honest}));
+    }
+    // directed: reflection. The attacker opens a connection, sends the node's own messages back to it
+    // on that connection (its challenge, then whatever it answered), in every combination of the
+    // first four / six observed messages
+    for (conn, e) in [(1u8, 2u8), (2, 3)] {
+        for k1 in 0..4u8 {
+            for k2 in 0..6u8 {
+                let case = Case { ops: vec![Op::Connect(conn), Op::Replay { k: k1, e }, Op::Replay { k: k2, e }, Op::Replay { k: k2.wrapping_add(1), e }] };
+                for (key, w) in eval(ctx, &case, true) {
+                    ctx.violation(&key, w, json!({"check": "reflection", "case": case}));
+                }
+            }
+        }
     }
     // directed: the honest link drops after 0..3 steps of the handshake (optionally with the last
     // message withheld), is dialled again, and every message seen so far is replayed to either end of
